@@ -161,6 +161,13 @@ func (p *plug) Execute(ctx context.Context, req any) (any, *plugins.Error) {
 			return &RespP{Tag: tag, N: n}, nil
 		}
 		return RespV{Tag: tag, N: n}, nil
+	case RespAndErr, RespAndPermErr:
+		e := ScriptedError(tag, n, st)
+		e.Permanent = st.Out == RespAndPermErr
+		if p.ptr {
+			return &RespP{Tag: tag, N: n}, e
+		}
+		return RespV{Tag: tag, N: n}, e
 	case WrongTypeErr:
 		e := ScriptedError(tag, n, st)
 		if p.ptr {
